@@ -94,7 +94,7 @@ func (r *Report) finish(evdir string, writeEvidence bool) int {
 	ext := map[string]int{}
 	var samples []any
 	var vacuity []string
-	replayDir := filepath.Join("/verif/replay", r.Prop)
+	replayDir := filepath.Join(envOr("HVC_REPLAYDIR", "/verif/replay"), r.Prop)
 	var replays map[*Obligation]*ReplayResult
 	emitViolation := func(name, reason string, o *Obligation) {
 		violations++
